@@ -36,19 +36,41 @@ RULE = (
 )
 
 
+STALE = b"Old,Header\r\nstale,row\r\n"  # what an earlier run left at the same path
+
+
 class RawDevice(io.RawIOBase):
+    """In-memory file: `initial` is what the path held when it was opened (kept only by a non-truncating open)."""
+
     def __init__(self):
         self.writes: list[bytes] = []
+        self.initial = b""
+        self.opened = False
 
     def writable(self):
         return True
+
+    def seekable(self):
+        return True
+
+    def tell(self):
+        return len(self.initial) + sum(len(w) for w in self.writes)
+
+    def seek(self, offset, whence=0):
+        end = self.tell()
+        if (whence == 2 and offset == 0) or (whence == 1 and offset == 0) or (whence == 0 and offset == end):
+            return end
+        raise io.UnsupportedOperation("the model device is append-only")
 
     def write(self, b):
         self.writes.append(bytes(b))
         return len(b)
 
+    def image(self, k) -> bytes:
+        return self.initial + b"".join(self.writes[:k])
+
     def content(self) -> bytes:
-        return b"".join(self.writes)
+        return self.initial + b"".join(self.writes)
 
 
 class Prog:
@@ -108,6 +130,11 @@ def units(tier, seed):
                             continue
                         us.append({"nobj": nobj, "fields": fields, "extra": extra, "only_best": only_best, "text": text,
                                    "L": (3 if nobj > 1 else 4) if tier == "quick" else (4 if nobj > 1 else 5)})
+    for nobj in (1, 2, 3):
+        for only_best in (True, False):
+            for fields in ("default", "given"):
+                us.append({"nobj": nobj, "fields": fields, "extra": 1 if fields == "given" else 0, "only_best": only_best, "text": "short",
+                           "L": 3 if tier == "quick" else 4, "represent": True})
     for only_best in (True, False):
         us.append({"nobj": 1, "fields": "given", "extra": "simplegp2", "only_best": only_best, "text": "short", "L": 4, "minimize_list1": True})
     return us
@@ -125,8 +152,18 @@ def run_unit(unit) -> UnitResult:
                 dev = RawDevice()
                 path = os.path.join(tmp, "log.csv")
 
+                stale = sum(seq) % 2 == 1  # the path already holds the log of an earlier run
+                if conformance and stale:
+                    with real_open(path, "wb") as fh:
+                        fh.write(STALE)
+                elif conformance and os.path.exists(path):
+                    os.unlink(path)
+
                 def fake_open(p, mode="r", newline=None, **kw):
-                    assert "w" in mode
+                    if "r" in mode and "+" not in mode:
+                        raise AssertionError("the recorder is not expected to read")
+                    dev.initial = STALE if stale and "w" not in mode else b""
+                    dev.opened = True
                     return io.TextIOWrapper(io.BufferedWriter(dev), newline=newline, encoding="utf-8")
 
                 recmod.open = real_open if conformance else fake_open
@@ -185,7 +222,7 @@ def run_unit(unit) -> UnitResult:
                         tracker = Tracker(problem, SequentialEvaluator(), recorders=[flags, rec])
                         expect_extra = {f"X{k}": (lambda k: (lambda ind: f"x{k}:{ind.genotype.i}"))(k) for k in range(len(extra_cbs))}
                     header_writes = len(dev.writes)
-                    if not conformance and header_writes == 0:
+                    if not conformance and not dev.opened:
                         # the recorder did not go through the intercepted open(): observe the real file instead
                         # (registration-boundary images only; crash enumeration needs the device)
                         r.count("device_not_intercepted")
@@ -196,9 +233,22 @@ def run_unit(unit) -> UnitResult:
                     best_so_far = None
                     only_best_effective = unit["only_best"]
                     ok = True
+                    inds_by_i = {}
+                    events = []
                     for i, f in enumerate(seq):
-                        table[i] = f
-                        ind = Individual(Prog(i, TEXTS[unit["text"]](i)), rep)
+                        events.append(("new", i))
+                        if unit.get("represent"):
+                            # the individual holding the best aggregate so far is presented to the tracker again
+                            # (as Population does with survivors in every generation)
+                            bi = max(range(i + 1), key=lambda j: (seq[j], -j))
+                            events.append(("again", bi))
+                    expected_at = []
+                    for e, (what, i) in enumerate(events):
+                        f = seq[i]
+                        if what == "new":
+                            table[i] = f
+                            inds_by_i[i] = Individual(Prog(i, TEXTS[unit["text"]](i)), rep)
+                        ind = inds_by_i[i]
                         tracker.evaluate([ind])
                         r.executions += 1
                         # which registrations must be logged is decided by an independent reference, not by the
@@ -213,6 +263,7 @@ def run_unit(unit) -> UnitResult:
                             best_so_far = agg
                         if (not only_best_effective) or improved:
                             expected_rows.append(ind)
+                            expected_at.append(e)
                         boundaries.append(len(dev.writes))
                         content = (real_open(path, "rb").read() if conformance else dev.content())
                         why = check_image(content, unit, nobj, expected_rows, names, expect_extra, table, complete=True)
@@ -220,9 +271,9 @@ def run_unit(unit) -> UnitResult:
                             kind, msg = why
                             r.add_violation(Violation(PROP, "CSVSearchRecorder.register", kind,
                                                       {"nobj": min(nobj, 2), "fields": unit["fields"], "simplegp": unit["extra"] == "simplegp2"},
-                                                      {"unit": unit, "sequence": list(seq), "after_registration": i},
+                                                      {"unit": unit, "sequence": list(seq), "after_registration": e},
                                                       f"objectives={nobj} fields={unit['fields']} extra={unit['extra']} only_best={unit['only_best']} "
-                                                      f"history {seq[: i + 1]}: {msg}"))
+                                                      f"history {seq[: i + 1]}{' with re-presentations' if unit.get('represent') else ''}: {msg}"))
                             ok = False
                             break
                     if conformance:
@@ -238,7 +289,7 @@ def run_unit(unit) -> UnitResult:
                     # crash enumeration: every prefix of the raw write log
                     final = dev.content()
                     for k in range(len(dev.writes) + 1):
-                        img = b"".join(dev.writes[:k])
+                        img = dev.image(k)
                         r.count("crash_images")
                         if not final.startswith(img):
                             r.add_violation(Violation(PROP, "CSVSearchRecorder", "crash-image-not-a-prefix", {}, {"unit": unit, "sequence": list(seq), "writes": k},
@@ -249,8 +300,8 @@ def run_unit(unit) -> UnitResult:
                             nreg = max(j for j, bnd in enumerate(boundaries) if bnd == k)
                             exp = []
                             cnt = 0
-                            for ind in expected_rows:
-                                if ind.genotype.i < nreg:
+                            for ind, at in zip(expected_rows, expected_at):
+                                if at < nreg:
                                     exp.append(ind)
                             why = check_image(img, unit, nobj, exp, names, expect_extra, table, complete=True)
                             if why:
